@@ -6,8 +6,8 @@ tree state per node from STATES.  The states are chosen so that the *pairs*
 (parent state -> child state) contain: content edit, exec-bit flip, symlink
 retarget, file rename, directory rename (children move), move into a
 directory, nested directories, deletion, kind changes (file<->symlink,
-directory->file), an empty directory, an empty file, binary content, a
-non-ASCII name; merges of any two of them arise from the DAG enumeration.
+directory->file), an empty directory, an empty file, binary content;
+merges of any two of them arise from the DAG enumeration.
 
 Names have >= 2 characters on purpose (see the C35 known finding about
 single-character paths in breezy.git.fetch.import_git_blob).
@@ -35,8 +35,9 @@ STATES = (
     # 5: fa moved into dd, nested directory, exec file inside, empty file
     {"dd": D(b"d-id"), "dd/fa": F(b"a-id", b"1\n"), "dd/sub": D(b"u-id"), "dd/sub/fs": F(b"s-id", b"s\n", True),
      "em": F(b"m-id", b"")},
-    # 6: non-ascii names, same content as state 1 under other ids (blob sharing across file ids)
-    {"f\xfc": F(b"b-id", b"1\n"), "d\xfc": D(b"g-id"), "d\xfc/fs": F(b"t-id", b"s\n"), "l\xfc": L(b"k-id", "f\xfc")},
+    # 6: same contents as state 1 under other ids and names (blob sharing across file ids; '-'/'.'/'+' in names).
+    #    (non-ASCII names are not used: MemoryTree, through which histories are committed, cannot hold them)
+    {"f-b.c": F(b"b-id", b"1\n"), "g+d": D(b"g-id"), "g+d/fs": F(b"t-id", b"s\n"), "l.k": L(b"k-id", "f-b.c")},
 )
 
 
